@@ -53,6 +53,12 @@
 //! The takeover scenarios (A writes r, A's lock times out, B writes r, A ends by commit | rollback | timeout
 //! cleanup while B is open, C tries to write r, B rolls back) run first as directed scripts and, with random
 //! statements around that skeleton, as the stream `takeover`.
+//! Statements that fail PART-WAY through a row (`CapModel.lean`, Props6): the steps inside a row of tx_insert / tx_update /
+//! tx_delete each return with `?`; the one that fails in an in-memory engine is `btree_index_add` at
+//! `RelationalConfig::max_btree_entries`, after the row's hash-index moves and the removal of its old b-tree entry.  The
+//! streams `cap_directed` (run first) and `cap` run on engines with a cap of a few keys (the model is told the same cap),
+//! so that such refusals actually occur, and follow them by rollback and the full index sweep (`exec_cap`: oracles and
+//! the observations of the unchanged code are described there).
 //! Time: the engine reads the wall clock (no hook); lock timeouts exist in whole seconds only.  Timeout
 //! scripts run on an engine with `lock_timeout_secs = 1` (and `transaction_timeout_secs = 1` for the tx sweep),
 //! `tick` = a real sleep of 1100 ms, everything else must take < 400 ms or the script is discarded.
@@ -3514,6 +3520,7 @@ fn absorb_cap(rep: &mut Report, tally: &mut Tally, stream: &str, cap: usize, ops
     }
     for (k, n) in &out.compared {
         rep.hit_n(&format!("compared:{k}"), *n);
+        rep.hit_n("cap:model_answers_compared", *n);
     }
     for (k, n) in &out.counts {
         rep.hit_n(k, *n);
@@ -3758,8 +3765,14 @@ fn gen_cap_script(rng: &mut Rng, len: usize) -> (usize, Vec<Op>) {
                 apply_update(&mut sim, Some(h), &c, &u);
                 ops.push(Op::TxUpdate(h, t, c, u));
             },
-            40..=47 => {
-                let v = gen_vals(rng, P6);
+            40..=45 => {
+                // mostly under a key the tree already has (a refused insert leaves its row behind — observation — and
+                // the rows it leaves are out of the sweeps from then on)
+                let mut v = gen_vals(rng, P6);
+                let have: Vec<i64> = sim.rows[t].values().map(|r| r[b]).collect();
+                if !have.is_empty() && rng.chance(3, 4) {
+                    v[b] = *rng.pick(&have);
+                }
                 if !sim.refused(cap, t, None, v[b]) {
                     let id = sim.next_id[t];
                     sim.write(Some(h), (t, id), Some(v.clone()));
@@ -3767,7 +3780,7 @@ fn gen_cap_script(rng: &mut Rng, len: usize) -> (usize, Vec<Op>) {
                 sim.next_id[t] += 1;
                 ops.push(Op::TxInsert(h, t, v));
             },
-            48..=57 => {
+            46..=57 => {
                 let c = gen_cond(rng, sim.next_id[t], P6);
                 let ids: Vec<u64> = sim.rows[t].iter().filter(|(id, v)| c.holds(**id, v)).map(|(id, _)| *id).collect();
                 if !ids.iter().any(|id| sim.owner.get(&(t, *id)).is_some_and(|o| *o != h)) {
@@ -3802,7 +3815,11 @@ fn gen_cap_script(rng: &mut Rng, len: usize) -> (usize, Vec<Op>) {
                 ops.push(Op::Update(t, c, u));
             },
             89..=91 => {
-                let v = gen_vals(rng, P6);
+                let mut v = gen_vals(rng, P6);
+                let have: Vec<i64> = sim.rows[t].values().map(|r| r[b]).collect();
+                if !have.is_empty() && rng.chance(2, 3) {
+                    v[b] = *rng.pick(&have);
+                }
                 if !sim.refused(cap, t, None, v[b]) {
                     let id = sim.next_id[t];
                     sim.write(None, (t, id), Some(v.clone()));
@@ -3830,6 +3847,41 @@ fn gen_cap_script(rng: &mut Rng, len: usize) -> (usize, Vec<Op>) {
     }
     ops.push(Op::Sweep);
     (cap, ops)
+}
+
+/// CANDIDATE FINDING probe (real engine only; `rollback_refused_by_cap_witness` (2)): with TWO b-tree columns in the SET list the
+/// undo replays the recorded changes in recording order, so a rollback that nobody interfered with can be refused capacity
+/// it freed itself.  Which column the engine moves first is a HashSet's iteration order: the probe repeats until the
+/// forward statement went through in the order that shows it.
+fn cap_two_btree_probe(rep: &mut Report) {
+    let row = |a: i64, b: i64| -> HashMap<String, Value> { HashMap::from([("c0".to_string(), Value::Int(a)), ("c1".to_string(), Value::Int(b))]) };
+    for _ in 0..24 {
+        let eng = RelationalEngine::with_config(RelationalConfig::default().with_max_btree_entries(4));
+        eng.create_table("t0", Schema::new((0..NCOLS).map(|c| Column::new(format!("c{c}"), ColumnType::Int)).collect())).unwrap();
+        eng.create_btree_index("t0", "c0").unwrap();
+        eng.create_btree_index("t0", "c1").unwrap();
+        for (a, b) in [(1, 7), (2, 7), (2, 8)] {
+            eng.insert("t0", row(a, b)).unwrap();
+        }
+        let tx = eng.begin_transaction();
+        let fwd = eng.tx_update(tx, "t0", Condition::Eq("_id".into(), Value::Int(1)), row(2, 9));
+        let rb = eng.rollback(tx);
+        rep.hit("cap_two_btree_probe:attempt");
+        if fwd.is_ok() {
+            if let Err(e) = rb {
+                let through: Vec<u64> = eng.select("t0", Condition::Ge("c0".into(), Value::Int(0))).map(|r| r.iter().map(|x| x.id).collect()).unwrap_or_default();
+                rep.hit("cap_two_btree_probe:rollback_refused_without_interference");
+                rep.observe(json!({"class": "relational_engine.rollback/undo_readd_refused_by_btree_cap:two_btree_columns",
+                    "what": format!("max_btree_entries = 4, b-tree indexes on c0 and c1, rows (1,7) (2,7) (2,8); tx_update _id=1 set c0=2, c1=9 -> ok; rollback -> {}; \
+                                     c0 >= 0 through the b-tree index now finds rows {through:?} of 3 (apply_undo_entry replays index_changes in recording order: it removes \
+                                     (c0,2) - which frees nothing - and re-adds (c0,1) while the trees are still full)", err_class(&e)),
+                    "proposed_diff": "proposed/C09-undo-readd-ignores-btree-cap.diff",
+                    "inside_quantifier": "candidate finding of the unchanged code (engines with a b-tree entry cap of a few keys and two b-tree columns in one SET list)"}));
+                return;
+            }
+        }
+    }
+    rep.hit("cap_two_btree_probe:not_seen");
 }
 
 // ------------------------------------------------------------------ main
@@ -4038,7 +4090,6 @@ fn main() {
     // 3d. engines with a b-tree entry cap of a few keys: statements refused part-way through a row, rollback, index sweep
     let mut rng = root.fork("cap");
     let n = if args.thorough { 2500 } else { 170 };
-    let cap_t0 = Instant::now();
     for i in 0..n {
         let len = rng.range(8, 26) as usize;
         let (cap, ops) = gen_cap_script(&mut rng, len);
@@ -4048,7 +4099,36 @@ fn main() {
         }
         absorb_cap(&mut rep, &mut tally, "cap", cap, &ops, out);
     }
-    eprintln!("cap stream: {:?}", cap_t0.elapsed());
+    cap_two_btree_probe(&mut rep);
+    // behaviour of the UNCHANGED code the capped scripts run into (candidate findings: recorded, not judged; the rows they
+    // affect are left out of the index sweeps of the script that met them)
+    for (tag, class, what, minimal, proposed) in [
+        ("cap:observed:refused_insert_left_row", "relational_engine.tx_insert/refused_insert_leaves_row",
+         "tx_insert records its undo entry LAST (after slab.insert, try_lock, the index_add and btree_index_add calls): an insert whose btree_index_add           is refused at max_btree_entries returns the error with the row alive in the table, present in the hash indexes, absent from the b-tree, and           no undo entry - neither the transaction's rollback nor the rollback inside the non-transactional insert() removes it           (Props6.failed_insert_leaves_row_witness)",
+         json!({"max_btree_entries": 1, "script": ["create_table 2", "create_index 0 0", "create_btree 0 0", "insert 0 1,0", "begin", "tx_insert h0 0 3,0 -> err too_large",
+                "rollback h0 -> ok", "select 0 T = rows 1 and 2", "select 0 GE:0:0 (b-tree) = row 1 only"]}),
+         "proposed/C09-tx-insert-records-undo-before-index-updates.diff"),
+        ("cap:observed:rollback_refused_by_cap_after_foreign_write", "relational_engine.rollback/undo_readd_refused_by_btree_cap",
+         "apply_undo_entry re-adds b-tree keys through the capped btree_index_add: when another writer has used the capacity the transaction had freed           (delete / move of the only row under a key), the rollback answers RollbackFailed and the restored row is missing from the b-tree index           (Props6.rollback_refused_by_cap_witness (1))",
+         json!({"max_btree_entries": 2, "script": ["create_table 2", "create_btree 0 0", "insert 0 1,0", "insert 0 2,0", "begin", "tx_delete h0 0 I:1", "insert 0 3,0",
+                "rollback h0 -> err rollback_failed", "select 0 GE:0:0 (b-tree) misses row 1"]}),
+         "proposed/C09-undo-readd-ignores-btree-cap.diff"),
+        ("cap:observed:rollback_refused_by_cap_after_rewriting_half_moved_row", "relational_engine.rollback/undo_readd_refused_by_btree_cap:after_refused_statement",
+         "a transaction that goes on writing a row one of its statements left half-moved (old b-tree entry gone, slab row unchanged) records undo entries           that describe the slab row, not the index; at a tight cap the rollback's re-add is refused: RollbackFailed           (Props6.rollback_refused_by_cap_witness (3))",
+         json!({"max_btree_entries": 1, "script": ["create_table 2", "create_btree 0 1", "insert 0 3,5", "insert 0 2,5", "begin", "tx_update h0 0 I:2 1=1 -> err too_large",
+                "tx_update h0 0 E:1:5 1=3", "rollback h0 -> err rollback_failed"]}),
+         "proposed/C09-undo-readd-ignores-btree-cap.diff"),
+        ("cap:observed:commit_after_refused_statement", "relational_engine.commit/refused_statement_left_half_moved_row",
+         "a tx_update refused at the cap leaves the first matched row half-moved (hash entries under the new value, old b-tree entry gone, slab row           unchanged) inside the open transaction; only a rollback repairs it - a commit makes it permanent (statements are not atomic inside a           transaction; the non-transactional update() rolls back by itself)",
+         json!({"max_btree_entries": 2, "script": ["create_table 2", "create_index 0 0", "create_btree 0 0", "insert 0 1,0", "insert 0 1,0", "insert 0 2,0", "begin",
+                "tx_update h0 0 I:1 0=3 -> err too_large", "commit h0", "select 0 E:0:1 (hash) misses row 1"]}),
+         "-"),
+    ] {
+        if let Some(n) = rep.distribution.get(tag).copied() {
+            rep.observe(json!({"class": class, "seen": n, "what": what, "minimal_input": minimal, "proposed_diff": proposed,
+                               "inside_quantifier": "candidate finding of the unchanged code, met only on engines configured with a b-tree entry cap of a few keys"}));
+        }
+    }
     // 4. lock / transaction timeouts, 5. lock takeover with the old holder ending first (real sleeps; started above)
     let mut outs = rnd_sleepers.join().expect("random sleepers panicked");
     outs.reverse();
@@ -4137,6 +4217,19 @@ fn main() {
         "fixed_stays_fixed:relational_engine.tx_insert/uncommitted_insert_not_locked",
         "fixed_stays_fixed:relational_engine.rollback/phantom_row",
         "fixed_stays_fixed:relational_engine.create_btree_index/duplicate_row_in_index_answer",
+        "directed:cap_update_refused_mid_row_then_rollback", "directed:cap_update_refused_btree_only_then_rollback",
+        "directed:cap_update_refused_after_two_hash_moves_then_rollback", "directed:cap_update_refused_several_rows_then_rollback",
+        "directed:cap_refused_update_between_other_statements_then_rollback", "directed:cap_update_refused_twice_then_delete_then_rollback",
+        "directed:cap_plain_update_refused_rolls_itself_back", "directed:cap_two_transactions_each_refused_then_rollback",
+        "directed:cap_shared_by_two_tables_update_refused_then_rollback", "directed:cap_control_moves_within_capacity",
+        "directed:cap_update_refused_then_commit", "directed:cap_insert_refused_then_rollback",
+        "directed:cap_freed_capacity_used_by_other_writer_then_rollback",
+        "cap:op:tx_update:too_large", "cap:op:update:too_large", "cap:op:tx_insert:too_large", "cap:op:tx_update:ok", "cap:op:tx_delete:ok",
+        "cap:op:rollback:ok", "cap:op:rollback:rollback_failed", "cap:op:commit:ok",
+        "cap:mid_row_failure:tx_update", "cap:mid_row_failure:tx_update:several_rows_matched", "cap:mid_row_failure:update",
+        "cap:rollback_after_mid_row_failure", "cap:rollback_after_mid_row_failure:inside_non_transactional_statement",
+        "cap:index_answer_checked_after_rollback_of_refused_statement", "cap:row_of_refused_statement_still_locked",
+        "cap:transaction_went_on_writing_half_moved_row",
     ].iter().map(|s| s.to_string()).collect();
     rep.note("time: the engine reads SystemTime::now() (no clock hook); lock/transaction timeouts are whole seconds, so timeout \
               scripts use 1 s timeouts and real 1100 ms sleeps; the exact `elapsed == timeout` millisecond boundary is not exercised");
